@@ -108,7 +108,7 @@ type Contracts struct {
 	GlobalInvs []Clause // Label = package
 }
 
-var reFunc = regexp.MustCompile(`^func\s+(?:\(\s*(\w+)\s+\*?(\w+)\s*\)\s*)?(\w+)\s*$`)
+var reFunc = regexp.MustCompile(`^func\s+(?:\(\s*(\w+)\s+\*?(\w+)\s*\)\s*)?([\w$]+)\s*$`)
 var reSpec = regexp.MustCompile(`^(spec|pred)\s+(\w+)\s*\(([^)]*)\)\s*([^=]*?)\s*(?:=\s*(.*))?$`)
 var reAxiom = regexp.MustCompile(`^axiom\s+(\w+)\s*\(([^)]*)\)\s*:\s*(.*)$`)
 var reGhostField = regexp.MustCompile(`^ghost\s+field\s+(\w+)\.(\w+)\s+(\S+)\s*$`)
@@ -116,7 +116,7 @@ var reFamily = regexp.MustCompile(`^family\s+(\w+)\.(\w+)\.(\w+)\s*\(([^)]*)\)\s
 var reDefault = regexp.MustCompile(`^default\s+\(\s*(\w+)\s+\*?(\w+)\s*\)\s*$`)
 var reLabel = regexp.MustCompile(`^([A-Za-z][\w.\-]*)\s*:\s*(.*)$`)
 var reLoop = regexp.MustCompile(`^loop\s+(\d+)\s*:?\s*(invariant|decreases|use|unroll|continues-only-if|deterministic-by-contract)\s*(.*)$`)
-var reCall = regexp.MustCompile(`^call\s+([\w.]+#\d+)\s*:?\s*(assert|use|bind)\s+(.*)$`)
+var reCall = regexp.MustCompile(`^call\s+([\w.]+#(?:\d+|\*))\s*:?\s*(assert|use|bind)\s+(.*)$`)
 
 func parseParams(s string) []Param {
 	var ps []Param
